@@ -13,7 +13,7 @@ from core.common import f2b, b2f, close
 from core import impl as I
 
 ID = "C06"
-LEAN_MODULES = ["AcnProofs.C06", "AcnProofs.Lemmas.FeasConvex", "AcnProofs.Lemmas.FeasFindings"]
+LEAN_MODULES = ["AcnProofs.C06", "AcnProofs.Lemmas.FeasConvex", "AcnProofs.Lemmas.FeasFindings", "AcnProofs.Lemmas.FeasRestore"]
 TIE_MODULES = ["AcnProofs.Lemmas.CodeTieNet"]
 DRIVER = "drv_C06"
 REQUIRED_THEOREMS = [
@@ -22,6 +22,7 @@ REQUIRED_THEOREMS = [
     "Acn.C06.three_agree_entry", "Acn.C06.no_constraints_feasible", "Acn.C06.infra_of_unconstrained_ok",
     "Acn.C06.linear_conservative", "Acn.C06.linear_conservative_entry", "Acn.C06.gen_tolerances",
     "Acn.Feas.algFeasible_convex", "Acn.Feas.algFeasible_interval",
+    "Acn.C06.restore_preserves_checks", "Acn.Feas.Net.restore_eq",
 ]
 BUDGET = {"quick": 900, "thorough": 30000, "search": 6000}
 TRUSTED = [
@@ -38,9 +39,19 @@ ASSUMPTIONS = [
     "the linear modes and the infrastructure view of a constraint-free network follow the repaired code "
     "(fixes/F3.diff, F4.diff, F5.diff); on the unrepaired tree these are reported as known findings F3/F4/F5",
     "the algorithm-side check cannot see the network's tolerances: agreement is for equal tolerances passed to all three",
+    "save/restore: the model (AcnModel/FeasRestore.lean) carries the part of the JSON document the feasibility checks read "
+    "back (station key order of `_EVSEs`, positional arrays, matrix with its row-less reshape, tolerances); the EVSE objects "
+    "behind the keys, the registry/context layer of BaseSimObj and the json module itself are exercised by the "
+    "correspondence only (their round trip is C16's subject); copy.deepcopy / pickle restores have no model counterpart "
+    "beyond 'nothing changes'",
+    "restored objects are judged per station ID against the CASE (coefficients, phase angle, voltage, tolerances as built): "
+    "a restore that reordered stations AND every positional array consistently would pass, one that reorders only some of them "
+    "is a violation",
 ]
 RULE = ("per case a real ChargingNetwork (1-8 EVSEs with voltages and phase angles: site angles 30/-90/150, random, "
-        "or all 0), 0-6 constraints built from Current objects (delta-wye shaped mixed-sign rows with 1/4 "
+        "or all 0; station ids REGISTERED IN NON-SORTED ORDER in ~3/4 of the multi-station cases: shuffled site-style ids "
+        "CA-513/CA-148, ids whose numeric, lexicographic and registration orders all differ, reversed, mixed-case; "
+        "constraint names not sorted either), 0-6 constraints built from Current objects (delta-wye shaped mixed-sign rows with 1/4 "
         "transformer ratios, or random sparse rows; positive, zero and negative limits), default or non-default "
         "tolerances given to the constructor and/or the call, a {station: rates} mapping with 0-5 periods (omitted "
         "stations, foreign keys, shuffled order, empty, ragged) scaled so that the worst constraint (phase-aware or "
@@ -50,6 +61,19 @@ RULE = ("per case a real ChargingNetwork (1-8 EVSEs with voltages and phase angl
         "coefficients, new name), each followed by a re-query of all entry points with a schedule placed at the "
         "changed constraint's edge or between the removed/old version's edge and the current constraints' edge, "
         "judged against the CURRENT constraints; "
+        "SAVE/RESTORE as a scenario step: in ~1/3 of all cases (exact stream included) the freshly built objects are saved "
+        "and restored BEFORE the first use, and in ~1/2 of the history steps a restore stands alone between two uses, or "
+        "before / between / after the constraint edits of the step, or between 'remove every constraint' and 'add a new "
+        "one' — as ChargingNetwork.from_json(net.to_json()) (new Simulator and Interface on what comes back) or "
+        "Simulator.from_json(sim.to_json()) + update_scheduler (Interface registered by update_scheduler, or a fresh one), "
+        "each as a string, through a file-like buffer or through a file on disk, once or twice in a row, or as "
+        "copy.deepcopy / pickle of the simulator; the scenario continues on the restored objects only. Everything "
+        "station-indexed goes to the implementation through ITS public orderings (rows in network.station_ids order for "
+        "the network side, InfrastructureInfo.get_station_index for the algorithm side, the mapping for the Interface) and "
+        "is judged per station ID against the case: coefficient column, phase angle and voltage of every station as the "
+        "network and the infrastructure view report them, the tolerances the network was built with, and the verdicts "
+        "against the phasor definition evaluated from the case's own table (the phasors given to the model are computed "
+        "from the case's angles, never read back from an object); "
         "non-trivial = constrained case with |k| <= 3 and a mixed-sign or multi-phase row active, or a "
         "constraint-free / ragged case; distinct by hash of the case")
 
@@ -60,9 +84,44 @@ EDGE = 1e-10   # relative; the generator's k = ±0.01 sits 1e-7 A off the edge (
 
 # ------------------------------------------------------------------ generation
 
+def _station_ids(rng, n):
+    """station ids in REGISTRATION order.  Most schemes are deliberately not in lexicographic order (and not
+    in numeric order either), so that anything that re-derives the station order from sorted keys — a JSON
+    dump with sorted keys, a sorted() over a dict, a DataFrame column sort — relabels the stations."""
+    scheme = rng.choice(["plain", "site", "site", "numeric", "reversed", "mixed_case"])
+    if scheme == "plain":
+        ids = [f"S{j}" if rng.random() < 0.9 else f"st-{j}x" for j in range(n)]
+    elif scheme == "site":
+        pre = rng.choice(["CA-", "PS-", "AG-1F", "AG-4F"])
+        ids = [f"{pre}{v:03d}" if pre in ("CA-", "PS-") else f"{pre}{v:02d}" for v in rng.sample(range(1, 100 if "AG" in pre else 600), n)]
+    elif scheme == "numeric":
+        # numeric order, lexicographic order and registration order all differ ("10" < "9" as strings)
+        ids = [f"{rng.choice(['', 'S', 'EV'])}{v}" for v in rng.sample([1, 2, 3, 8, 9, 10, 11, 12, 20, 21, 100, 101], n)]
+        if len(set(ids)) < n:
+            ids = [f"S{v}" for v in rng.sample([1, 2, 3, 8, 9, 10, 11, 12, 20, 21, 100, 101], n)]
+    elif scheme == "reversed":
+        ids = [f"S{n - 1 - j}" for j in range(n)]
+    else:
+        ids = rng.sample(["a1", "B2", "c3", "D4", "e5", "F6", "g7", "H8", "_x", "Zz", "zA"], n)
+    return ids, scheme
+
+
+def _restore_op(rng):
+    """a save/restore of the objects under test: JSON (string, file-like buffer, file path) of the network or
+    of the whole simulator (then update_scheduler, which registers a new Interface), or an in-memory copy
+    (copy.deepcopy / pickle) of the simulator.  The history continues on what comes back."""
+    level = rng.choice(["net", "net", "sim", "sim", "sim", "copy"])
+    via = rng.choice(["deepcopy", "pickle"]) if level == "copy" else rng.choice(["str", "str", "buf", "path"])
+    op = {"op": "restore", "level": level, "via": via, "iface": rng.choice(["fresh", "registered"]),
+          "times": 1 if rng.random() < 0.85 else 2}
+    op["how"] = f"{level}/{via}" + ("x2" if op["times"] == 2 else "")
+    return op
+
+
 def _stations(rng, exact):
     n = rng.choice([1, 2, 3, 3, 4, 5, 6, 8])
     mode = "zero" if exact else rng.choice(["site", "site", "random", "mixed", "zero", "special"])
+    ids, _scheme = _station_ids(rng, n)
     out = []
     for j in range(n):
         if mode == "zero":
@@ -75,8 +134,7 @@ def _stations(rng, exact):
             ph = rng.choice([0, 180, 90, -90, 45, 60, 120, -120, 360, -30])
         else:
             ph = rng.choice([30, -90, 150, 0, round(rng.uniform(-180, 180), 2)])
-        out.append({"id": f"S{j}" if rng.random() < 0.9 else f"st-{j}x", "V": rng.choice([208, 208, 240, 120, 277]),
-                    "phase": ph})
+        out.append({"id": ids[j], "V": rng.choice([208, 208, 240, 120, 277]), "phase": ph})
     return out, mode
 
 
@@ -133,9 +191,10 @@ def _matrix(case):
 
 
 def _tols(case, net_tol=None):
-    """tolerances in force for the calls of this case (what `None` defaults to); `net_tol` = the
-    network's own public attributes when they have been observed."""
-    nvt, nrt = net_tol if net_tol else case["net_tol"] if case.get("net_tol") else (DEF_VT, DEF_RT)
+    """tolerances in force for the calls of this case (what `None` defaults to): the case's own when it
+    gives them to the constructor; otherwise `net_tol` = the public attributes of the network AS BUILT (before
+    any save/restore) when they have been observed."""
+    nvt, nrt = case["net_tol"] if case.get("net_tol") else net_tol if net_tol else (DEF_VT, DEF_RT)
     cvt, crt = case.get("call_tol") or (None, None)
     return (nvt if cvt is None else cvt), (nrt if crt is None else crt)
 
@@ -215,14 +274,17 @@ def _apply_ops(cons, ops):
 def _views(case):
     """one case-like dict per query: the initial query, then one per history step with the CURRENT constraints."""
     base = {k: v for k, v in case.items() if k != "history"}
+    nres = int((case.get("restore") or {}).get("times", 1)) if case.get("restore") else 0
+    base["restores"] = nres
     out = [base]
     cur = case["constraints"]
     for i, step in enumerate(case.get("history") or []):
-        cur = _apply_ops(cur, step["ops"])
+        cur = _apply_ops(cur, step["ops"])     # a restore leaves the specification untouched
+        nres += sum(int(o.get("times", 1)) for o in step["ops"] if o["op"] == "restore")
         v = dict(base)
         v.update({"constraints": cur, "sched": step["sched"], "k": step.get("k"), "target": step.get("target", "phasor"),
                   "sel": step.get("sel"), "call_tol": step.get("call_tol", base.get("call_tol")),
-                  "step": i + 1, "ops": step["ops"]})
+                  "step": i + 1, "ops": step["ops"], "restores": nres})
         out.append(v)
     return out
 
@@ -250,7 +312,25 @@ def _gen_history(rng, case):
         T = rng.choice([1, 1, 2, 3])
         S = [[(rng.uniform(1, 32) if rng.random() < 0.85 else 0.0) for _ in range(T)] for _ in ids]
         vt0, rt0 = _tols(case)
-        for _ in range(1 if rng.random() < 0.8 else 2):
+        shape = rng.random()
+        emptied = bool(cur) and shape < 0.07
+        only_restore = not emptied and shape < 0.17
+        if emptied:
+            # every constraint removed (the matrix keeps its 0 x N shape), save/restore of the emptied network,
+            # then a new constraint on what came back
+            for c in cur:
+                ghosts.append(dict(c))
+                ops.append({"op": "remove", "name": c["name"], "pos": "all"})
+            ops.append(_restore_op(rng))
+            fresh[0] += 1
+            o = {"op": "add", "name": f"h{fresh[0]}", "coeffs": new_row(), "limit": new_limit()}
+            focus.append(o["name"])
+            ops.append(o)
+            cur = _apply_ops(cur, ops)
+        elif only_restore:
+            # nothing but a save/restore between two uses: the verdicts are those of the unchanged constraints
+            ops.append(_restore_op(rng))
+        for _ in range(0 if emptied or only_restore else 1 if rng.random() < 0.8 else 2):
             kinds = ["add"] + (["remove", "remove", "update_limit", "update_limit", "update_coeffs", "update_rename"] if cur else [])
             kind = rng.choice(kinds)
             if kind == "add":
@@ -284,6 +364,9 @@ def _gen_history(rng, case):
                     focus.append(o.get("new_name") or o["name"])
             ops.append(o)
             cur = _apply_ops(cur, [o])
+        if not emptied and not only_restore and rng.random() < 0.35:
+            # a save/restore before, between or after the constraint edits of this step
+            ops.insert(rng.randint(0, len(ops)), _restore_op(rng))
         view = dict(case, constraints=cur)
         call_tol = case.get("call_tol") if rng.random() < 0.8 else rng.choice([None, [1e-3, None], [1e-4, 1e-5]])
         view["call_tol"] = call_tol
@@ -332,6 +415,9 @@ def _gen_history(rng, case):
 
 def _gen_case(rng, exact=False, history=False):
     case = _gen_case0(rng, exact)
+    if rng.random() < 0.35:
+        # save/restore BEFORE the first use: every query of this case is answered by restored objects
+        case["restore"] = _restore_op(rng)
     if history and not exact:
         lens = {len(v) for v in case["sched"].values()}
         if len(lens) <= 1:
@@ -358,6 +444,8 @@ def _gen_case0(rng, exact=False):
     T = rng.choice([1, 1, 2, 3, 4, 5, 0] if not exact else [1, 2, 3])
     # limits
     cons = []
+    # constraint names are not in sorted order either (rows are kept in the order they were added)
+    cnum = rng.sample(range(12), len(cons_rows)) if rng.random() < 0.7 else list(range(len(cons_rows)))
     for i, d in enumerate(cons_rows):
         if exact:
             lim = float(rng.choice([8, 16, 20, 32.5, 64, 100.25, 180]))
@@ -365,7 +453,7 @@ def _gen_case0(rng, exact=False):
             lim = rng.choice([rng.choice([10, 20, 32, 80, 100, 180, 400]), round(rng.uniform(5, 500), 3)])
             if rng.random() < 0.03:
                 lim = rng.choice([0.0, -1.0, -1e-6])
-        cons.append({"name": f"c{i}", "coeffs": d, "limit": float(lim)})
+        cons.append({"name": f"c{cnum[i]}", "coeffs": d, "limit": float(lim)})
     case = {"stations": st, "constraints": cons, "net_tol": net_tol, "call_tol": call_tol, "exact": exact,
             "angles": amode, "shape": shape}
     # schedule
@@ -460,7 +548,50 @@ def corpus():
          "exact": False, "k": None, "angles": "site", "shape": "delta-wye", "target": "phasor"},
         {"stations": site, "constraints": [{"name": "n", "coeffs": {"A": 1.0}, "limit": -1.0}], "net_tol": None,
          "call_tol": None, "sched": {}, "exact": False, "k": None, "angles": "site", "shape": "random", "target": "phasor"},
-    ]
+    ] + _restore_corpus()
+
+
+def _restore_corpus():
+    """stations wired (registered) in an order that is not the sorted order of their ids, one pod constraint per
+    phase and one mixed-sign line constraint, custom tolerances; the objects are saved and restored before use /
+    between uses / between constraint edits; each schedule loads ONE station beyond its own pod limit, so the
+    verdict belongs to that station id and to no other."""
+    st = [{"id": "CA-513", "V": 208, "phase": 30}, {"id": "CA-148", "V": 240, "phase": -90},
+          {"id": "CA-322", "V": 208, "phase": 150}, {"id": "CA-303", "V": 277, "phase": 30}]
+    cons = [{"name": "pod_AB", "coeffs": {"CA-513": 1.0, "CA-303": 1.0}, "limit": 40.0},
+            {"name": "line_A", "coeffs": {"CA-513": 1.0, "CA-303": 1.0, "CA-322": -1.0}, "limit": 60.0},
+            {"name": "pod_BC", "coeffs": {"CA-148": 1.0}, "limit": 16.0}]
+    base = {"stations": st, "constraints": cons, "net_tol": [1e-3, 1e-7], "call_tol": None, "exact": False, "k": None,
+            "angles": "site", "shape": "delta-wye", "target": "phasor"}
+
+    def rop(level, via, iface="fresh", times=1):
+        return {"op": "restore", "level": level, "via": via, "iface": iface, "times": times,
+                "how": f"{level}/{via}" + ("x2" if times == 2 else "")}
+    out = []
+    for level, via, iface in (("net", "str", "fresh"), ("sim", "str", "registered"), ("sim", "buf", "fresh"),
+                              ("net", "path", "fresh"), ("copy", "deepcopy", "registered"), ("copy", "pickle", "fresh")):
+        # before use: 20 A on CA-148 alone breaks pod_BC (16 A) and nothing else; 20 A on CA-322 alone is fine
+        out.append(dict(base, restore=rop(level, via, iface), sched={"CA-148": [20.0, 0.0], "CA-322": [0.0, 20.0]},
+                        sel={"names": ["pod_BC", "line_A"], "ts": [1, 0]}))
+    # between uses, and between the edits of one step: restore, then a constraint added on what came back
+    out.append(dict(base, sched={"CA-513": [25.0], "CA-303": [14.0]}, history=[
+        {"ops": [rop("sim", "str")], "sched": {"CA-303": [30.0], "CA-322": [45.0]}, "k": None, "target": "phasor",
+         "call_tol": None, "scaled": "unscaled"},
+        {"ops": [{"op": "remove", "name": "pod_BC", "pos": "last"}, rop("net", "buf", times=2),
+                 {"op": "add", "name": "pod_CA", "coeffs": {"CA-322": 1.0}, "limit": 32.0}],
+         "sched": {"CA-148": [31.0], "CA-322": [33.0]}, "k": None, "target": "phasor", "call_tol": None, "scaled": "unscaled"},
+        {"ops": [{"op": "update", "name": "line_A", "coeffs": {"CA-148": 1.0, "CA-513": -1.0}, "limit": 30.0, "pos": "middle",
+                  "how": "update_coeffs"}, rop("sim", "path", "registered")],
+         "sched": {"CA-148": [20.0], "CA-513": [20.0], "CA-322": [30.0]}, "k": None, "target": "phasor", "call_tol": None,
+         "scaled": "unscaled"}]))
+    # every constraint removed, the emptied network saved and restored, a new constraint on what came back
+    out.append(dict(base, sched={"CA-513": [10.0], "CA-148": [10.0]}, history=[
+        {"ops": [{"op": "remove", "name": "pod_AB", "pos": "all"}, {"op": "remove", "name": "line_A", "pos": "all"},
+                 {"op": "remove", "name": "pod_BC", "pos": "all"}, rop("sim", "str"),
+                 {"op": "add", "name": "h1", "coeffs": {"CA-322": 1.0, "CA-148": -1.0}, "limit": 25.0}],
+         "sched": {"CA-322": [15.0], "CA-148": [15.0], "CA-513": [32.0]}, "k": None, "target": "phasor", "call_tol": None,
+         "scaled": "unscaled"}]))
+    return out
 
 
 def _small_scope(rng, n):
@@ -509,6 +640,10 @@ def _call(f):
         return "err:" + ("InvalidSchedule" if n == "InvalidScheduleError" else n)
 
 
+def _start():
+    return datetime(2020, 1, 1)
+
+
 def _build(case):
     from acnportal.acnsim.network import ChargingNetwork, Current
     from acnportal.acnsim.models import EVSE
@@ -519,8 +654,54 @@ def _build(case):
         net.register_evse(EVSE(s["id"], max_rate=32), s["V"], s["phase"])
     for c in case["constraints"]:
         net.add_constraint(Current(dict(c["coeffs"])), c["limit"], name=c["name"])
-    sim = Simulator(net, BaseAlgorithm(), EventQueue(), datetime(2020, 1, 1), verbose=False)
-    return net, Interface(sim)
+    sim = Simulator(net, BaseAlgorithm(), EventQueue(), _start(), verbose=False)
+    return net, Interface(sim), sim
+
+
+def _json_round_trip(cls, obj, via):
+    """cls.from_json(obj.to_json()) as a string, through a file-like buffer, or through a file on disk"""
+    if via == "str":
+        return cls.from_json(obj.to_json())
+    if via == "buf":
+        import io
+        b = io.StringIO()
+        obj.to_json(b)
+        b.seek(0)
+        return cls.from_json(b)
+    if via == "path":
+        import os
+        import tempfile
+        with tempfile.TemporaryDirectory(prefix="verif_C06_") as d:
+            path = os.path.join(d, "saved.json")
+            obj.to_json(path)
+            return cls.from_json(path)
+    raise ValueError(via)
+
+
+def _restore(net, iface, sim, op):
+    """save and restore the objects under test; returns the (network, Interface, simulator) the scenario
+    continues on.  Nothing of the old objects is used afterwards."""
+    import copy
+    import pickle
+    import warnings
+    from acnportal.acnsim.network import ChargingNetwork
+    from acnportal.acnsim import Simulator, EventQueue, Interface
+    from acnportal.algorithms import BaseAlgorithm
+    for _ in range(int(op.get("times", 1))):
+        with warnings.catch_warnings():
+            warnings.simplefilter("ignore")
+            if op["level"] == "net":
+                net = _json_round_trip(ChargingNetwork, net, op["via"])
+                sim = Simulator(net, BaseAlgorithm(), EventQueue(), _start(), verbose=False)
+            elif op["level"] == "sim":
+                sim = _json_round_trip(Simulator, sim, op["via"])
+                sim.update_scheduler(BaseAlgorithm())
+                net = sim.network
+            else:
+                sim = copy.deepcopy(sim) if op["via"] == "deepcopy" else pickle.loads(pickle.dumps(sim))
+                net = sim.network
+        iface = sim.scheduler.interface if op.get("iface") == "registered" else Interface(sim)
+    return net, iface, sim
 
 
 def _run_schedulers(case):
@@ -546,7 +727,7 @@ def _run_schedulers(case):
     return out
 
 
-def _apply_ops_impl(net, ops):
+def _apply_ops_impl(net, iface, sim, ops):
     from acnportal.acnsim.network import Current
     for o in ops:
         if o["op"] == "add":
@@ -555,40 +736,64 @@ def _apply_ops_impl(net, ops):
             net.remove_constraint(o["name"])
         elif o["op"] == "update":
             net.update_constraint(o["name"], Current(dict(o["coeffs"])), o["limit"], new_name=o.get("new_name"))
+        elif o["op"] == "restore":
+            net, iface, sim = _restore(net, iface, sim, o)
+    return net, iface, sim
 
 
 def run_impl(case):
-    net, iface = _build(case)
+    net, iface, sim = _build(case)
+    # the tolerances of the network AS BUILT (what `None` in the case means); restored objects are judged
+    # against these, never against their own attributes
+    built_tol = [float(net.violation_tolerance), float(net.relative_tolerance)]
     views = _views(case)
-    obs = _query(views[0], net, iface)
+    if case.get("restore"):
+        try:
+            net, iface, sim = _restore(net, iface, sim, case["restore"])
+        except Exception as ex:  # noqa
+            return {"restore_err": f"{type(ex).__name__}: {ex}"}
+    obs = _query(views[0], net, iface, built_tol)
     if len(views) > 1:
         obs["history"] = []
         for v in views[1:]:
             try:
-                _apply_ops_impl(net, v["ops"])
+                net, iface, sim = _apply_ops_impl(net, iface, sim, v["ops"])
             except Exception as ex:  # noqa
                 obs["history"].append({"op_err": f"{type(ex).__name__}: {ex}"})
                 break
-            # the SAME network and the SAME Interface object are queried again
-            obs["history"].append(_query(v, net, iface))
+            # the SAME network and the SAME Interface object (or what the last restore returned) are queried again
+            obs["history"].append(_query(v, net, iface, built_tol))
     return obs
 
 
-def _query(case, net, iface):
+def _query(case, net, iface, built_tol=None):
+    """all entry points on one (network, Interface) pair.  Everything station-indexed is exchanged with the
+    implementation PER STATION ID through its public orderings (`network.station_ids` for the network side,
+    `InfrastructureInfo.get_station_index` for the algorithm side, the mapping itself for the Interface); what
+    the objects say about a station (coefficients, phase, voltage) is recorded by id for the oracle, and the
+    phasor coordinates handed to the model are computed from the CASE's angles, not read back from the object."""
     from acnportal.algorithms.utils import infrastructure_constraints_feasible as icf
     ids = [s["id"] for s in case["stations"]]
     cvt, crt = case.get("call_tol") or (None, None)
-    vt, rt = _tols(case, [float(net.violation_tolerance), float(net.relative_tolerance)])
-    obs = {"station_ids": list(net.station_ids),
+    vt, rt = _tols(case, built_tol)
+    sids = [str(x) for x in net.station_ids]
+    obs = {"station_ids": sids,
            "matrix": None if net.constraint_matrix is None else [[float(x) for x in r] for r in net.constraint_matrix],
            "limits": [float(x) for x in net.magnitudes], "cids": list(net.constraint_index),
            "net_tol": [float(net.violation_tolerance), float(net.relative_tolerance)]}
-    # the phasor coordinates exactly as the code computes them
-    e = np.exp(1j * np.deg2rad(net._phase_angles))
-    rad = np.deg2rad(net._phase_angles)
+    if built_tol is not None:
+        obs["built_tol"] = list(built_tol)
+    try:
+        obs["phase_by_id"] = {str(k): float(v) for k, v in net.phase_angles.items()}
+        obs["volt_by_id"] = {str(k): float(v) for k, v in net.voltages.items()}
+    except Exception as ex:  # noqa
+        obs["station_data_err"] = type(ex).__name__
+    # the phasor coordinates exactly as the code computes them from the registered angles
+    ang = np.array([float(s["phase"]) for s in case["stations"]], dtype=float)
+    e = np.exp(1j * np.deg2rad(ang))
+    rad = np.deg2rad(ang)
     obs["c_net"], obs["s_net"] = [float(x) for x in e.real], [float(x) for x in e.imag]
     obs["c_alg"], obs["s_alg"] = [float(x) for x in np.cos(rad)], [float(x) for x in np.sin(rad)]
-    obs["voltages"] = [float(x) for x in net._voltages]
     sched = {k: list(v) for k, v in case["sched"].items()}
     # interface side
     obs["iface"] = _call(lambda: iface.is_feasible(sched, False, cvt, crt))
@@ -605,19 +810,33 @@ def _query(case, net, iface):
                         "nstations": len(info.station_ids),
                         "same_matrix": bool(np.array_equal(info.constraint_matrix, net.constraint_matrix))
                         if net.constraint_matrix is not None else None,
-                        "phases": [float(x) for x in info.phases]}
+                        "phases": [float(x) for x in info.phases],
+                        "station_ids": [str(x) for x in info.station_ids],
+                        "voltages": [float(x) for x in info.voltages],
+                        "matrix": [[float(x) for x in r] for r in info.constraint_matrix],
+                        "limits": [float(x) for x in info.constraint_limits],
+                        "cids": [str(x) for x in info.constraint_ids]}
+        try:
+            obs["infra"]["index_of"] = {i: int(info.get_station_index(i)) for i in ids}
+        except Exception as ex:  # noqa
+            obs["infra"]["index_err"] = type(ex).__name__
         gc = iface.get_constraints()
         obs["infra"]["get_constraints_shape"] = [int(x) for x in gc.constraint_matrix.shape]
     except Exception as ex:  # noqa
         obs["infra"] = {"err": type(ex).__name__}
     if not case["constraints"] and not case.get("step"):
         obs["schedulers"] = _run_schedulers(case)
-    # dense matrix (harness-side densification, used for the network and algorithm side)
+    # dense matrix: `S` in the case's station order is the specification (oracle, model); the arrays handed to
+    # the implementation carry the same rows in the implementation's own public station order
     lens = {len(v) for v in sched.values()}
     if len(sched) > 0 and len(lens) == 1:
         T = lens.pop()
-        S = np.array(_dense(case["stations"], sched, T), dtype=float).reshape(len(ids), T)
-        obs["S"] = [[float(x) for x in r] for r in S]
+        rows = dict(zip(ids, _dense(case["stations"], sched, T)))
+        obs["S"] = [[float(x) for x in rows[i]] for i in ids]
+        if sorted(sids) != sorted(ids):
+            obs["station_ids_foreign"] = True
+            return obs
+        S = np.array([rows[i] for i in sids], dtype=float).reshape(len(ids), T)
         kw = {}
         if cvt is not None:
             kw["violation_tolerance"] = cvt
@@ -644,22 +863,26 @@ def _query(case, net, iface):
                                     for r in zz]
                     except Exception as ex:  # noqa
                         obs[key] = "err:" + type(ex).__name__
-        if info is not None:
-            obs["alg"] = _call(lambda: icf(S, info, False, vt, rt))
-            obs["alg_lin"] = _call(lambda: icf(S, info, True, vt, rt))
+        if info is not None and "index_of" in obs["infra"] and sorted(obs["infra"]["index_of"].values()) == list(range(len(ids))):
+            # rates for the algorithm side are placed with InfrastructureInfo.get_station_index, as algorithms do
+            SA = np.zeros((len(ids), T), dtype=float)
+            for i in ids:
+                SA[obs["infra"]["index_of"][i]] = rows[i]
+            obs["alg"] = _call(lambda: icf(SA, info, False, vt, rt))
+            obs["alg_lin"] = _call(lambda: icf(SA, info, True, vt, rt))
             if T == 1:
-                obs["alg1"] = _call(lambda: icf(S[:, 0], info, False, vt, rt))
-                obs["alg1_lin"] = _call(lambda: icf(S[:, 0], info, True, vt, rt))
+                obs["alg1"] = _call(lambda: icf(SA[:, 0], info, False, vt, rt))
+                obs["alg1_lin"] = _call(lambda: icf(SA[:, 0], info, True, vt, rt))
             if cvt is None and crt is None and not case.get("net_tol"):
                 # default network, default call: the algorithm side's own defaults must agree
-                obs["alg_default"] = _call(lambda: icf(S, info))
+                obs["alg_default"] = _call(lambda: icf(SA, info))
     return obs
 
 
 # ------------------------------------------------------------------ model
 
 def model_request(case, obs):
-    if "__harness_exception__" in obs:
+    if "__harness_exception__" in obs or "restore_err" in obs:
         return None
     views = _views(case)
     if len(views) == 1:
@@ -691,6 +914,9 @@ def _req(case, obs):
         "S": [[f2b(x) for x in r] for r in obs["S"]] if "S" in obs else None,
         "x": [f2b(r[0]) for r in obs["S"]] if "S" in obs and obs["S"] and len(obs["S"][0]) == 1 else None,
         "sel": case.get("sel") if "sel_sq" in obs else None,
+        # number of save/restore round trips the objects have been through before this query: the driver sends
+        # the model network through its own codec (AcnModel/FeasRestore.lean) that many times
+        "restores": int(case.get("restores") or 0),
     }
     return req
 
@@ -844,6 +1070,9 @@ def oracle(case, obs):
 
 def _oracle(case, obs):
     views = _views(case)
+    if "restore_err" in obs:
+        return [{"kind": "restore_exception", "detail": f"save/restore {case['restore'].get('how')} of freshly built "
+                 f"objects raised {obs['restore_err']}"}]
     fails = list(_oracle_one(views[0], obs))
     for i, (v, o) in enumerate(zip(views[1:], obs.get("history", []))):
         what = "+".join(op["op"] + ("(" + op.get("how", op.get("pos", "")) + ")" if op["op"] != "add" else "") for op in v["ops"])
@@ -851,7 +1080,8 @@ def _oracle(case, obs):
             fails.append({"kind": "constraint_operation_exception", "detail": f"step {i + 1} ({what}): {o['op_err']}"})
             break
         for f in _oracle_one(v, o):
-            fails.append({"kind": f["kind"], "detail": f"after step {i + 1} ({what}) on the same network and Interface, "
+            fails.append({"kind": f["kind"], "detail": f"after step {i + 1} ({what}) on the same network and Interface"
+                          f"{' (or what the save/restore returned)' if v.get('restores') else ''}, "
                           f"judged against the CURRENT constraints {[c['name'] for c in v['constraints']]}: " + f["detail"]})
     return fails
 
@@ -865,13 +1095,41 @@ def _oracle_one(case, obs):
     ids = [s["id"] for s in case["stations"]]
     sched = case["sched"]
     cons = case["constraints"]
-    # 0. the network stores the matrix the Current objects describe
-    want = _matrix(case)
-    if cons and obs["matrix"] != want:
-        fail("matrix_not_as_specified", f"stored={obs['matrix']} specified={want}")
+    where = f" [objects went through {case['restores']} save/restore round trip(s)]" if case.get("restores") else ""
+    # 0. what the network says about each station, BY STATION ID, is what was registered / specified: the
+    #    coefficient column, the phase angle, the voltage; and the tolerances are those it was built with
+    sids = obs["station_ids"]
+    if sorted(sids) != sorted(ids) or len(set(sids)) != len(sids):
+        fail("station_ids_not_as_registered", f"network.station_ids={sids} registered={ids}{where}")
+    elif cons:
+        M = obs["matrix"]
+        if M is None or len(M) != len(cons) or any(len(r) != len(sids) for r in M):
+            fail("matrix_not_as_specified", f"stored={M} for {len(cons)} constraints x {len(ids)} stations{where}")
+        else:
+            for j, i in enumerate(sids):
+                got = [r[j] for r in M]
+                want = [float(c["coeffs"].get(i, 0.0)) for c in cons]
+                if got != want:
+                    fail("matrix_not_as_specified", f"coefficients of station {i} (column {j} of constraint_matrix, "
+                         f"network.station_ids={sids}): stored={got} specified={want} for constraints "
+                         f"{[c['name'] for c in cons]}{where}")
+                    break
     if obs["cids"] != [c["name"] for c in cons] or obs["limits"] != [float(c["limit"]) for c in cons]:
         fail("matrix_not_as_specified", f"names/limits stored={obs['cids']}/{obs['limits']} "
-             f"specified={[c['name'] for c in cons]}/{[c['limit'] for c in cons]}")
+             f"specified={[c['name'] for c in cons]}/{[c['limit'] for c in cons]}{where}")
+    if "station_data_err" in obs:
+        fail("station_data_not_as_registered", f"network.phase_angles / voltages raised {obs['station_data_err']}{where}")
+    else:
+        for s_ in case["stations"]:
+            got = (obs["phase_by_id"].get(s_["id"]), obs["volt_by_id"].get(s_["id"]))
+            if got != (float(s_["phase"]), float(s_["V"])):
+                fail("station_data_not_as_registered", f"station {s_['id']}: network.phase_angles / voltages say "
+                     f"{got}, registered with ({float(s_['phase'])}, {float(s_['V'])}){where}")
+                break
+    want_tol = [float(x) for x in case["net_tol"]] if case.get("net_tol") else obs.get("built_tol")
+    if want_tol is not None and obs["net_tol"] != want_tol:
+        fail("network_tolerances_not_as_built", f"violation/relative tolerance of the network = {obs['net_tol']}, "
+             f"built with {want_tol}{where}")
     # 1. infrastructure view
     inf = obs["infra"]
     if inf["err"] is not None:
@@ -886,6 +1144,26 @@ def _oracle_one(case, obs):
             fail("infrastructure_info_shape", f"{inf} for {len(cons)} constraints x {len(ids)} stations")
         if inf.get("same_matrix") is False:
             fail("infrastructure_info_shape", "infrastructure_info().constraint_matrix differs from the network's")
+        # the view by station ID: get_station_index(id) points at that station's coefficients, phase and voltage
+        iids = inf.get("station_ids")
+        if iids is not None:
+            idx = inf.get("index_of")
+            if sorted(iids) != sorted(ids) or idx is None or any(not (0 <= idx[i] < len(iids)) or iids[idx[i]] != i for i in ids):
+                fail("infrastructure_info_station_data_wrong", f"station_ids={iids} get_station_index={idx} "
+                     f"({inf.get('index_err')}) registered={ids}{where}")
+            elif len(inf["phases"]) == len(ids) and len(inf["voltages"]) == len(ids) and \
+                    all(len(r) == len(ids) for r in inf["matrix"]) and len(inf["matrix"]) == len(cons):
+                for s_ in case["stations"]:
+                    j = idx[s_["id"]]
+                    got = (inf["phases"][j], inf["voltages"][j], [r[j] for r in inf["matrix"]])
+                    want = (float(s_["phase"]), float(s_["V"]), [float(c["coeffs"].get(s_["id"], 0.0)) for c in cons])
+                    if got != want:
+                        fail("infrastructure_info_station_data_wrong", f"station {s_['id']} (index {j}): (phase, voltage, "
+                             f"coefficients) in infrastructure_info() = {got}, specified {want}{where}")
+                        break
+            if inf["cids"] != [c["name"] for c in cons] or inf["limits"] != [float(c["limit"]) for c in cons]:
+                fail("infrastructure_info_station_data_wrong", f"constraint ids/limits {inf['cids']}/{inf['limits']} "
+                     f"specified {[c['name'] for c in cons]}/{[c['limit'] for c in cons]}{where}")
     for name, r in (obs.get("schedulers") or {}).items():
         if r["err"] is not None:
             kind = "infra_unconstrained_crash" if r["err"] == "AttributeError" and inf["err"] == "AttributeError" \
@@ -925,7 +1203,7 @@ def _oracle_one(case, obs):
             if k in obs and obs[k] is False:
                 fail("unconstrained_not_feasible", f"{k}=False on a network without constraints")
         return fails
-    rows, exact, T = _independent(case, S, obs.get("net_tol"))
+    rows, exact, T = _independent(case, S, obs.get("built_tol"))
     exp = _verdict(rows, "mag", exact)
     doc = _verdict(rows, "doc", exact)
     blind = _verdict(rows, "blind", exact)
@@ -960,13 +1238,17 @@ def _oracle_one(case, obs):
                 fail("constraint_current_selection_wrong",
                      f"constraint_current(constraints={sel['names']}, time_indices={sel['ts']})² = {got}, expected rows {ri} x periods {ti} of the full table: {want_sq}")
     # 6. linear mode: documented aggregate Σ|a_j| S_jt, agreement, conservativeness
+    # the defect-specific classes (F4: sign-blind aggregate, F5: norm across time) are only named when the objects
+    # describe every station as specified; a relabelled network is reported under the general classes
+    spec = not any(f["kind"] in ("station_ids_not_as_registered", "matrix_not_as_specified", "station_data_not_as_registered",
+                                 "infrastructure_info_station_data_wrong", "network_tolerances_not_as_built") for f in fails)
     sign_blind = False
     if "lin" in obs:
         for i, r in enumerate(rows):
             for t, v in enumerate(r["doc"]):
                 got = obs["lin"][i][t]
                 if not close(got, float(v)):
-                    if close(got, float(r["blind"][t])):
+                    if spec and close(got, float(r["blind"][t])):
                         sign_blind = True
                         fail("net_linear_ignores_coefficient_signs",
                              f"constraint_current(linear=True)[{i}][{t}]={got} = |Σ a_j S_j|, documented Σ|a_j| S_j = {float(v)}")
@@ -980,7 +1262,7 @@ def _oracle_one(case, obs):
     if doc is not None:
         for k in ("net_lin", "iface_lin"):
             if isinstance(obs.get(k), bool) and obs[k] != doc:
-                if (blind is not None and obs[k] == blind) or (blind is None and sign_blind):
+                if spec and ((blind is not None and obs[k] == blind) or (blind is None and sign_blind)):
                     fail("net_linear_ignores_coefficient_signs",
                          f"{k}={obs[k]}: decided on |Σ a_j S_j| instead of Σ|a_j| S_j (which gives {doc})")
                 else:
@@ -988,7 +1270,7 @@ def _oracle_one(case, obs):
         nt = _norm_time_verdict(rows, exact)
         for k in ("alg_lin", "alg1_lin"):
             if isinstance(obs.get(k), bool) and obs[k] != doc:
-                if k == "alg_lin" and T != 1 and nt is not None and obs[k] == nt:
+                if spec and k == "alg_lin" and T != 1 and nt is not None and obs[k] == nt:
                     fail("alg_linear_not_per_period",
                          f"alg_lin={obs[k]}: the 2-norm across the {T} periods was compared with the limit "
                          f"(per period Σ|a_j| S_j ≤ limit+tol is {doc})")
@@ -998,7 +1280,7 @@ def _oracle_one(case, obs):
     if nonneg and exp is False:
         for k in ("net_lin", "iface_lin", "alg_lin", "alg1_lin"):
             if obs.get(k) is True:
-                if k in ("net_lin", "iface_lin") and doc is False and (blind is True or (blind is None and sign_blind)):
+                if spec and k in ("net_lin", "iface_lin") and doc is False and (blind is True or (blind is None and sign_blind)):
                     fail("net_linear_ignores_coefficient_signs",
                          f"{k} accepts a non-negative schedule that the phase-aware check rejects")
                 else:
@@ -1007,7 +1289,7 @@ def _oracle_one(case, obs):
 
 
 def nontrivial(case, obs):
-    if "__harness_exception__" in obs:
+    if "__harness_exception__" in obs or "restore_err" in obs:
         return False
     if not case["constraints"] or case.get("history"):
         return True
@@ -1026,7 +1308,14 @@ def nontrivial(case, obs):
 def features(case, obs):
     if "__harness_exception__" in obs:
         return ["harness_exception"]
-    out = [f"stations:{len(case['stations'])}", f"constraints:{len(case['constraints'])}",
+    if "restore_err" in obs:
+        return ["restore_err"]
+    ids_ = [s["id"] for s in case["stations"]]
+    out = ["id_order:" + ("single" if len(ids_) < 2 else "sorted" if ids_ == sorted(ids_) else "unsorted"),
+           "restore:pre:" + (case["restore"]["how"] if case.get("restore") else "none")]
+    if case.get("restore") or any(o["op"] == "restore" for st_ in case.get("history") or [] for o in st_["ops"]):
+        out.append("restore:some/" + ("ids_unsorted" if ids_ != sorted(ids_) else "ids_sorted"))
+    out += [f"stations:{len(case['stations'])}", f"constraints:{len(case['constraints'])}",
            f"angles:{case.get('angles')}", f"shape:{case.get('shape')}", f"k:{case.get('k')}" if not case.get("exact") else
            f"exact_k:{case.get('k')}", f"target:{case.get('target')}" if case.get("k") is not None else "unscaled"]
     lens = {len(v) for v in case["sched"].values()}
@@ -1038,7 +1327,7 @@ def features(case, obs):
     out.append("net_tol:" + ("default" if not case.get("net_tol") else "custom"))
     ct = case.get("call_tol") or (None, None)
     out.append("call_tol:" + ("none" if ct[0] is None and ct[1] is None else "partial" if None in ct else "both"))
-    vt, rt = _tols(case, obs.get("net_tol"))
+    vt, rt = _tols(case, obs.get("built_tol"))
     for c in case["constraints"]:
         out.append("tol:relative" if rt * c["limit"] > vt else "tol:absolute")
         if c["limit"] + max(vt, rt * c["limit"]) < 0:
@@ -1056,6 +1345,10 @@ def features(case, obs):
         for step, o in zip(case["history"], obs.get("history", [])):
             for op in step["ops"]:
                 out.append("history:op:" + op["op"] + (":" + op["pos"] if "pos" in op else "") + (":" + op["how"] if "how" in op else ""))
+            if any(op["op"] == "restore" for op in step["ops"]):
+                kinds_ = [op["op"] for op in step["ops"]]
+                out.append("history:restore:" + ("alone" if len(kinds_) == 1 else "first" if kinds_[0] == "restore" else
+                                                  "last" if kinds_[-1] == "restore" else "between"))
             out.append("history:scaled:" + step.get("scaled", "?"))
             if "op_err" in o:
                 out.append("history:op_err")
@@ -1084,6 +1377,24 @@ def shrink(case, kind):
     cur = copy.deepcopy(case)
     if not bad(cur):
         return case
+    # a failure that does not need the save/restore steps is reported without them
+    c = copy.deepcopy(cur)
+    c.pop("restore", None)
+    for st_ in c.get("history") or []:
+        st_["ops"] = [o for o in st_["ops"] if o["op"] != "restore"]
+    if c != cur and bad(c):
+        cur = c
+    else:
+        for o in [cur.get("restore")] + [o for st_ in cur.get("history") or [] for o in st_["ops"] if o["op"] == "restore"]:
+            if o and o.get("times", 1) > 1:
+                c = copy.deepcopy(cur)
+                for oo in [c.get("restore")] + [oo for st_ in c.get("history") or [] for oo in st_["ops"] if oo["op"] == "restore"]:
+                    if oo:
+                        oo["times"] = 1
+                        oo["how"] = oo["how"].replace("x2", "")
+                if bad(c):
+                    cur = c
+                break
     changed = True
     while changed:
         changed = False
